@@ -1,0 +1,21 @@
+//go:build verif
+
+package table
+
+// Contracts for the govc verifier (/verif/DESIGN.md). Comment-only.
+//
+//@ define wfE(s) = all(i, 0, len(s), wf(s[i].Key))
+//@ define sortedE(s) = all(i, 0, len(s), all(j, i+1, len(s), cmp(s[i].Key, s[j].Key) < 0))
+//
+// C10: the block search returns the first entry that is >= key, or false when every entry is < key.
+//@ func (*table.Data).LowerBound -> e, ok
+//@ props C10 C01
+//@ requires wf(key) && wfE(d.Entries) && sortedE(d.Entries)
+//@ ensures ok ==> ex(i, 0, len(d.Entries), d.Entries[i] == e && cmp(d.Entries[i].Key, key) >= 0 && all(j, 0, i, cmp(d.Entries[j].Key, key) < 0))
+//@ ensures !ok ==> all(i, 0, len(d.Entries), cmp(d.Entries[i].Key, key) < 0)
+//@ loop 0:
+//@   invariant 0 <= low && high < len(d.Entries) && low <= high+1
+//@   invariant all(i, 0, low, cmp(d.Entries[i].Key, key) < 0)
+//@   invariant all(i, high+1, len(d.Entries), cmp(d.Entries[i].Key, key) >= 0)
+//@   invariant high == len(d.Entries)-1 || (high >= 0 && cmp(d.Entries[high].Key, key) >= 0)
+//@   decreases high - low + 1
